@@ -166,6 +166,8 @@ impl Search {
         // The search is over: say so before the answer is printed, so that a go sent in reaction
         // to the bestmove line never finds this search still marked as running.
         self.stop();
+        #[cfg(rce_verif)]
+        crate::verif::sched("S.cleared");
 
         // If not even the first iteration could be completed there is no searched move yet:
         // answer with the first legal move of the root rather than with nothing.
